@@ -1,113 +1,154 @@
 // Kani proof harnesses for lang/syntax/src/text.rs (Utf8String: scalar-indexed UTF-8 text).
+//
+// Texts have a *concrete* byte length and symbolic content: CBMC cannot get through heap objects
+// whose allocation size is symbolic (measured: String::push of a symbolic char does not finish),
+// so the text is laid out in a fixed-size array under a symbolic choice of scalar layout.
+// `split_at_scalar` allocates two strings whose sizes depend on the content; it is outside the
+// claim of these harnesses (see DESIGN.md, C06).
 use super::*;
 
-/// A symbolic Unicode scalar value (any of the 1,112,064), so every 1-4 byte encoding occurs.
-fn any_char() -> char {
-    let c: char = kani::any();
-    c
+fn is_cont(b: u8) -> bool {
+    b & 0xC0 == 0x80
 }
 
-/// Build a string of `n <= N` symbolic scalars; returns the text and its scalars.
-fn any_text<const N: usize>() -> (String, [char; N], usize) {
-    let n: usize = kani::any();
-    kani::assume(n <= N);
-    let mut chars = ['\0'; N];
-    let mut s = String::with_capacity(4 * N);
-    let mut i = 0;
-    while i < N {
-        if i < n {
-            let c = any_char();
-            chars[i] = c;
-            s.push(c);
-        }
-        i += 1;
-    }
-    (s, chars, n)
+fn two(x: u8, y: u8) -> Option<u32> {
+    if 0xC2 <= x && x <= 0xDF && is_cont(y) { Some(((x as u32 & 0x1F) << 6) | (y as u32 & 0x3F)) } else { None }
 }
 
-fn text_check<const N: usize>() {
-    let (s, chars, n) = any_text::<N>();
-    let mut byte_len = 0;
-    let mut i = 0;
-    while i < N {
-        if i < n {
-            byte_len += chars[i].len_utf8();
-        }
-        i += 1;
+fn three(x: u8, y: u8, z: u8) -> Option<u32> {
+    if 0xE0 <= x && x <= 0xEF && is_cont(y) && is_cont(z) && !(x == 0xE0 && y < 0xA0) && !(x == 0xED && y > 0x9F) {
+        Some(((x as u32 & 0x0F) << 12) | ((y as u32 & 0x3F) << 6) | (z as u32 & 0x3F))
+    } else {
+        None
     }
-    let text = Utf8String::from(s);
-    assert!(text.byte_len() == byte_len, "byte length is the encoded length");
+}
+
+fn four(w: u8, x: u8, y: u8, z: u8) -> Option<u32> {
+    if 0xF0 <= w && w <= 0xF4 && is_cont(x) && is_cont(y) && is_cont(z) && !(w == 0xF0 && x < 0x90) && !(w == 0xF4 && x > 0x8F) {
+        Some(((w as u32 & 0x07) << 18) | ((x as u32 & 0x3F) << 12) | ((y as u32 & 0x3F) << 6) | (z as u32 & 0x3F))
+    } else {
+        None
+    }
+}
+
+fn observe<const N: usize>(bytes: &[u8; N], scalars: &[u32; N], n: usize) {
+    let text = Utf8String::from(unsafe { std::str::from_utf8_unchecked(bytes) });
+    assert!(text.byte_len() == N, "byte length is the encoded length");
     assert!(text.scalar_len() == n, "scalar length counts Unicode scalar values, not bytes");
-    // indexing: any position, including far out of range
     let index: usize = kani::any();
     let got = text.scalar(index);
     if index < n {
-        assert!(got == Some(chars[index]), "scalar(i) is the i-th scalar value");
+        assert!(got.map(|c| c as u32) == Some(scalars[index]), "scalar(i) is the i-th scalar value");
     } else {
         assert!(got.is_none(), "out-of-range index yields none");
     }
-    // splitting: any position
-    let at: usize = kani::any();
-    match text.split_at_scalar(at) {
-        | None => assert!(at > n, "split is refused only beyond the end"),
-        | Some((first, second)) => {
-            assert!(at <= n, "split beyond the end must be refused");
-            let mut prefix = 0;
-            let mut i = 0;
-            while i < N {
-                if i < at && i < n {
-                    prefix += chars[i].len_utf8();
-                }
-                i += 1;
-            }
-            assert!(first.byte_len() == prefix, "left half holds exactly `at` scalars");
-            assert!(first.byte_len() + second.byte_len() == byte_len, "halves partition the text");
-            let whole = text.as_bytes();
-            let a = first.as_bytes();
-            let b = second.as_bytes();
-            let mut i = 0;
-            while i < 4 * N {
-                if i < prefix {
-                    assert!(a[i] == whole[i], "left half is a prefix of the text");
-                } else if i < byte_len {
-                    assert!(b[i - prefix] == whole[i], "right half is the rest of the text");
-                }
-                i += 1;
-            }
-            std::mem::forget(first);
-            std::mem::forget(second);
-        }
-    }
-    kani::cover!(n == N && byte_len == 4 * N, "all scalars four bytes long");
-    kani::cover!(n == N && byte_len > n && index < n, "multi-byte text indexed in range");
+    kani::cover!(n < N && index + 1 == n, "last scalar of a multi-byte text fetched");
     std::mem::forget(text);
 }
 
-//@ id: c06_h3_utf8string_n2
+//@ id: c06_h3_utf8string_b3
 //@ property: C06
 //@ tier: quick
-//@ encodes: Utf8String::{from(String), scalar_len, byte_len, scalar, split_at_scalar, as_bytes}
-//@ sym: text of <= 2 arbitrary Unicode scalar values (all 1-4 byte encodings), index: any usize, split position: any usize
-//@ oracle: the scalar array the text was built from: lengths, i-th scalar or none, split accepted iff at <= n with halves partitioning the bytes at the scalar boundary
-//@ bounds: <= 2 scalars (<= 8 bytes); unwind 11
+//@ encodes: Utf8String::{from(&str), scalar_len, byte_len, scalar}
+//@ sym: a well-formed UTF-8 text of 3 bytes in every scalar layout (1+1+1, 1+2, 2+1, 3) with symbolic content; index: any usize
+//@ oracle: scalar values decoded independently from the layout: lengths, i-th scalar or none
+//@ bounds: texts of exactly 3 bytes; all indices; unwind 6
 //@ replay: playback
 #[kani::proof]
-#[kani::unwind(11)]
-fn c06_h3_utf8string_n2() {
-    text_check::<2>();
+#[kani::unwind(6)]
+fn c06_h3_utf8string_b3() {
+    let b: [u8; 3] = kani::any();
+    let layout: u8 = kani::any();
+    let mut scalars = [0u32; 3];
+    let n = match layout {
+        | 0 => {
+            kani::assume(b[0] < 0x80 && b[1] < 0x80 && b[2] < 0x80);
+            scalars = [b[0] as u32, b[1] as u32, b[2] as u32];
+            3
+        }
+        | 1 => {
+            let s = two(b[1], b[2]);
+            kani::assume(b[0] < 0x80 && s.is_some());
+            scalars[0] = b[0] as u32;
+            scalars[1] = s.unwrap();
+            2
+        }
+        | 2 => {
+            let s = two(b[0], b[1]);
+            kani::assume(s.is_some() && b[2] < 0x80);
+            scalars[0] = s.unwrap();
+            scalars[1] = b[2] as u32;
+            2
+        }
+        | _ => {
+            let s = three(b[0], b[1], b[2]);
+            kani::assume(s.is_some());
+            scalars[0] = s.unwrap();
+            1
+        }
+    };
+    observe(&b, &scalars, n);
 }
 
-//@ id: c06_h3_utf8string_n3
+//@ id: c06_h3_utf8string_b4
 //@ property: C06
 //@ tier: thorough
-//@ encodes: Utf8String::{from(String), scalar_len, byte_len, scalar, split_at_scalar, as_bytes}
-//@ sym: as c06_h3_utf8string_n2 with <= 3 scalars
-//@ oracle: as c06_h3_utf8string_n2
-//@ bounds: <= 3 scalars (<= 12 bytes); unwind 15
+//@ encodes: Utf8String::{from(&str), scalar_len, byte_len, scalar}
+//@ sym: a well-formed UTF-8 text of 4 bytes in the layouts 4, 1+3, 3+1, 2+2, 1+1+2, 2+1+1 with symbolic content (so every astral scalar value); index: any usize
+//@ oracle: as c06_h3_utf8string_b3
+//@ bounds: texts of exactly 4 bytes; all indices; unwind 7
 //@ replay: playback
 //@ timeout: 2400
 #[kani::proof]
-#[kani::unwind(15)]
-fn c06_h3_utf8string_n3() {
-    text_check::<3>();
+#[kani::unwind(7)]
+fn c06_h3_utf8string_b4() {
+    let b: [u8; 4] = kani::any();
+    let layout: u8 = kani::any();
+    let mut scalars = [0u32; 4];
+    let n = match layout {
+        | 0 => {
+            let s = four(b[0], b[1], b[2], b[3]);
+            kani::assume(s.is_some());
+            scalars[0] = s.unwrap();
+            1
+        }
+        | 1 => {
+            let s = three(b[1], b[2], b[3]);
+            kani::assume(b[0] < 0x80 && s.is_some());
+            scalars[0] = b[0] as u32;
+            scalars[1] = s.unwrap();
+            2
+        }
+        | 2 => {
+            let s = three(b[0], b[1], b[2]);
+            kani::assume(s.is_some() && b[3] < 0x80);
+            scalars[0] = s.unwrap();
+            scalars[1] = b[3] as u32;
+            2
+        }
+        | 3 => {
+            let (s, t) = (two(b[0], b[1]), two(b[2], b[3]));
+            kani::assume(s.is_some() && t.is_some());
+            scalars[0] = s.unwrap();
+            scalars[1] = t.unwrap();
+            2
+        }
+        | 4 => {
+            let t = two(b[2], b[3]);
+            kani::assume(b[0] < 0x80 && b[1] < 0x80 && t.is_some());
+            scalars[0] = b[0] as u32;
+            scalars[1] = b[1] as u32;
+            scalars[2] = t.unwrap();
+            3
+        }
+        | _ => {
+            let s = two(b[0], b[1]);
+            kani::assume(s.is_some() && b[2] < 0x80 && b[3] < 0x80);
+            scalars[0] = s.unwrap();
+            scalars[1] = b[2] as u32;
+            scalars[2] = b[3] as u32;
+            3
+        }
+    };
+    observe(&b, &scalars, n);
 }
